@@ -269,8 +269,8 @@ theorem importKind_spec (d : Data) (name : Name) (a b : Option Code)
     (hm : ∀ v, d.get? "memory" = some v → ∃ s, v = .str s) :
     importKind d name a b = .error .statechart ∨
     ∃ st, importKind d name a b = .ok st ∧ st.name = name ∧
-      (st.kind = .compound → truthyAt d "states" = true) ∧
-      (st.kind = .orthogonal → truthyAt d "parallel states" = true) := by
+      (st.kind = .compound → presentAt d "states" = true) ∧
+      (st.kind = .orthogonal → presentAt d "parallel states" = true) := by
   obtain ⟨ri, hri⟩ := optNameAt_ok d "initial" hi
   obtain ⟨rm, hrm⟩ := optNameAt_ok d "memory" hm
   unfold importKind
@@ -280,12 +280,12 @@ theorem importKind_spec (d : Data) (name : Name) (a b : Option Code)
   · exact Or.inr ⟨_, rfl, rfl, by simp, by simp⟩
   · exact Or.inr ⟨_, rfl, rfl, by simp, by simp⟩
   · split
-    · next ht => exact Or.inr ⟨_, rfl, rfl, fun _ => ht, by simp⟩
+    · next ht => exact Or.inr ⟨_, rfl, rfl, fun _ => (Bool.and_eq_true _ _ |>.mp ht).1, by simp⟩
     · split
       · next ht => exact Or.inr ⟨_, rfl, rfl, by simp, fun _ => ht⟩
       · exact Or.inr ⟨_, rfl, rfl, by simp, by simp⟩
   · split
-    · next ht => exact Or.inr ⟨_, rfl, rfl, fun _ => ht, by simp⟩
+    · next ht => exact Or.inr ⟨_, rfl, rfl, fun _ => (Bool.and_eq_true _ _ |>.mp ht).1, by simp⟩
     · split
       · next ht => exact Or.inr ⟨_, rfl, rfl, by simp, fun _ => ht⟩
       · exact Or.inr ⟨_, rfl, rfl, by simp, by simp⟩
@@ -295,8 +295,8 @@ theorem importKind_spec (d : Data) (name : Name) (a b : Option Code)
 theorem importState_spec (f : Nat) (d : Data) (h : StateOK f d) :
     importState d = .error .statechart ∨
     ∃ st, importState d = .ok st ∧
-      (st.kind = .compound → truthyAt d "states" = true) ∧
-      (st.kind = .orthogonal → truthyAt d "parallel states" = true) := by
+      (st.kind = .compound → presentAt d "states" = true) ∧
+      (st.kind = .orthogonal → presentAt d "parallel states" = true) := by
   obtain ⟨l, rfl⟩ := h.isMap
   obtain ⟨name, hn⟩ := h.name
   obtain ⟨r1, h1⟩ := stripField_ok _ "on entry" h.onEntry
@@ -349,14 +349,14 @@ theorem todoSize_subs (subs : List Data) (n : Option Name) : todoSize (subs.map 
   simp [todoSize, Function.comp_def]
 
 theorem importSubs_spec (f : Nat) (m : List (String × Data)) (st : StateDef) (h : StateOK f (.map m))
-    (hc : st.kind = .compound → truthyAt (.map m) "states" = true)
-    (ho : st.kind = .orthogonal → truthyAt (.map m) "parallel states" = true) :
+    (hc : st.kind = .compound → presentAt (.map m) "states" = true)
+    (ho : st.kind = .orthogonal → presentAt (.map m) "parallel states" = true) :
     ∃ subs, importSubs (.map m) st = .ok subs ∧ (∀ s ∈ subs, ∃ s0, vState f s0 = some s) ∧
       nodesList subs + 1 ≤ nodesMap m := by
   unfold importSubs
   by_cases hk : st.kind = .compound
   · have ht := hc hk
-    simp only [truthyAt] at ht
+    simp only [presentAt] at ht
     cases hg : (Data.map m).get? "states" with
     | none => rw [hg] at ht; exact absurd ht (by simp)
     | some v =>
@@ -367,7 +367,7 @@ theorem importSubs_spec (f : Nat) (m : List (String × Data)) (st : StateDef) (h
       exact ⟨l, rfl, hl, by omega⟩
   · by_cases hk2 : st.kind = .orthogonal
     · have ht := ho hk2
-      simp only [truthyAt] at ht
+      simp only [presentAt] at ht
       cases hg : (Data.map m).get? "parallel states" with
       | none => rw [hg] at ht; exact absurd ht (by simp)
       | some v =>
